@@ -20,7 +20,7 @@ import (
 func main() {
 	seed := flag.Uint64("seed", 1, "PRNG seed")
 	out := flag.String("out", "", "output directory (parent)")
-	tier := flag.String("tier", "quick", "quick | thorough")
+	tier := flag.String("tier", "quick", "quick | thorough | focus (only the families and stress configurations around the cache manager, more variants)")
 	child := flag.String("child", "", "child mode: forced:<family> | stress:<config>")
 	dir := flag.String("dir", "", "working directory (child)")
 	replay := flag.String("replay", "", "replay the op lines of this file")
